@@ -330,6 +330,37 @@ def dispatch(it, body, st, t, fn, args, depth):
         q, r = it.divsyms(st, pa, pb)
         return ret(st, INT(r, "u64"))
 
+    # ---- digit-source constructors of magnitudes (the denoted value is an opaque symbol of the source)
+    if path in ("biguint::BigUint::new", "biguint::BigUint::from_slice", "biguint::BigUint::from_bytes_be", "biguint::BigUint::from_bytes_le") and args:
+        v = it.deref_all(st, args[0])
+        if v[0] == "digits":
+            return ret(st, MAG(Poly.sym("M" + v[1]).subst(st.subst)))
+    if path in ("biguint::BigUint::from_radix_be", "biguint::BigUint::from_radix_le") and args:
+        v = it.deref_all(st, args[0])
+        if v[0] == "digits":
+            key = "parsed:" + v[1]
+            if key not in st.bools:
+                raise NeedFork(("bool", key))
+            if st.bools[key]:
+                return ret(st, ENUM("core::option::Option", "Some", [MAG(Poly.sym("M" + v[1]).subst(st.subst))]))
+            return ret(st, ENUM("core::option::Option", "None", []))
+    if path == "biguint::BigUint::assign_from_slice" and len(args) == 2 and args[0][0] == "ptr":
+        v = it.deref_all(st, args[1])
+        if v[0] == "digits":
+            it.store(st, args[0][1], args[0][2], MAG(Poly.sym("M" + v[1]).subst(st.subst)))
+            return ret(st, UNIT)
+        if v[0] == "opaque" and "; 0]" in v[1]:
+            it.store(st, args[0][1], args[0][2], MAG(0))
+            return ret(st, UNIT)
+    if name == "gen_biguint_below" and len(args) == 2:
+        v = it.deref_all(st, args[1])
+        if v[0] == "mag":
+            kz = st.known_zero(v[1])
+            if kz is None:
+                raise NeedFork(("zero", v[1]))
+            if kz:
+                return [("panic", st, "gen_biguint_below(0)")]
+            return ret(st, MAG(opaque_sym("below", v[1])))
     # ---- constructors
     if path == "bigint::BigInt::from_biguint":
         s = args[0]
@@ -344,7 +375,26 @@ def dispatch(it, body, st, t, fn, args, depth):
     if path in ("bigint::BigInt::magnitude",):
         v = it.deref_all(st, args[0])
         if v[0] == "struct":
-            return ret(st, PTR(args[0][1], args[0][2] + ("data",)))
+            a0 = args[0]
+            while a0[0] == "ptr" and it.load(st, a0)[0] == "ptr":
+                a0 = it.load(st, a0)
+            return ret(st, PTR(a0[1], a0[2] + ("data",)))
+        if v[0] == "bigval":
+            p = v[1]
+            cell = st.fresh("mag")
+            pos = all(c > 0 for c in p.t.values())
+            if not pos and len(p.t) >= 2:
+                pp = Poly({k: c for k, c in p.t.items() if c > 0})
+                nn = -Poly({k: c for k, c in p.t.items() if c < 0})
+                if (repr(nn), repr(pp)) in st.lt:
+                    pos = True
+                elif (repr(pp), repr(nn)) in st.lt:
+                    st.env[cell] = MAG(-p)
+                    return ret(st, PTR(cell))
+            if pos:
+                st.env[cell] = MAG(p)
+                return ret(st, PTR(cell))
+            raise Unsupported("magnitude of a computed BigInt of unknown sign %r" % (p,))
     if path in ("bigint::BigInt::sign",):
         v = it.deref_all(st, args[0])
         if v[0] == "struct":
